@@ -222,6 +222,8 @@ def _exact_root(av, ev):
 def func(name, *args):
     """Transcendental / special atoms: exp log sin cos tan arctan arccos arcsin sinh
     cosh tanh i0 i1 ... and uninterpreted functions (name starting with 'uf:')."""
+    if name == 'log' and len(args) == 1 and args[0].op == 'var' and args[0].args[0] == 'EULER':
+        return ONE
     if len(args) == 1 and args[0].op == 'const':
         v = args[0].args[0]
         if name == 'exp' and v == 0:
